@@ -6,7 +6,7 @@
  *                              bsize(block size) eos
  *   replay <mode> --search     deterministic battery (exhaustive over the small dimensions)
  * modes: sync_flush flush_write_buffer write_trailer write_type0_header write_stored_block check_level_req
- *        wrapper_consts stateless_shift
+ *        detect_repeated wrapper_consts stateless_shift
  *
  * Symbols that are NASM on x86-64 are bound to their portable twins (crc32_gzip_refl_base, adler32_base)
  * or, where the replayed functions never reach them, to aborting stubs. */
@@ -416,6 +416,21 @@ one_level(uint32_t level, int lbnull, uint32_t lbs)
                 rp_fail("level=%u lbnull=%d lbs=%u :: check_level_req returned %d: %s", level, lbnull, lbs, r, why);
 }
 
+/* ---------------- detect_repeated_char_length ---------------- */
+static void
+one_detect(uint32_t length, uint32_t run, uint8_t c)
+{
+        static uint8_t buf[70000 + 32];
+        memset(buf, 0x33, sizeof(buf));
+        uint8_t *in = buf + 16;
+        memset(in, c, run);
+        if (run < length)
+                memset(in + run, (uint8_t) (c + 1 + (run % 250)), length - run);
+        int n = detect_repeated_char_length(in, length);
+        if ((uint32_t) n != run)
+                rp_fail("length=%u run=%u c=%u :: detect_repeated_char_length returned %d, maximal run is %u", length, run, c, n, run);
+}
+
 static const uint64_t BITS_OF[8] = { 0, 1, 2, 5, 9, 21, 42, 85 }; /* one value < 2^bc per bc, plus extremes below */
 
 RP_MAIN_BEGIN
@@ -519,6 +534,18 @@ RP_MODE("check_level_req")
                 for (unsigned m = 0; m < 4; m++)
                 for (int d = -1; d <= 1; d++)
                         one_level(lv == 7 ? 0xffffffffu : lv, n, mins[m] + d);
+        }
+}
+RP_MODE("detect_repeated")
+{
+        if (!rp_search)
+                one_detect(rp_get("length", 16), rp_get("run", 8), rp_get("c", 0));
+        else {
+                static const uint32_t ls[] = { 8, 9, 15, 16, 17, 23, 24, 31, 32, 33, 100, 4095, 4096, 4097, 65535, 70000 };
+                for (unsigned i = 0; i < 16; i++)
+                for (uint32_t run = 8; run <= ls[i]; run += (ls[i] > 200 && run > 40 && run + 40 < ls[i]) ? 997 : 1)
+                for (unsigned c = 0; c < 2; c++)
+                        one_detect(ls[i], run, c ? 0xff : 0);
         }
 }
 RP_MODE("wrapper_consts")
